@@ -106,7 +106,7 @@ Lemma dump_eq h cfg v :
       match v with VTok t => Ok (VStr (tk_str t)) | _ => unmod "str()" end
   | HIsoZ =>
       match v with
-      | VTok t => Ok (VStr (replace_first utc_off z_suffix (tk_str t)))
+      | VTok t => Ok (VStr (iso_z (tk_str t)))
       | _ => unmod "dump_with_datetime"
       end
   | HTimestamp => match v with VTok t => Ok (VInt (tk_num t)) | _ => unmod "timestamp" end
@@ -166,24 +166,22 @@ Proof. destruct cfg as [? [] ?]; reflexivity. Qed.
 Lemma disp_inst cfg c xs : dispatch (H0 cfg) (VInst c xs) = HData.
 Proof. destruct cfg as [? [] ?]; reflexivity. Qed.
 
-(* ---- the Z rewrite: replace('+00:00', 'Z', 1) writes a trailing +00:00 as Z -- *)
+(* ---- the Z rewrite: s[:-6] + 'Z' if s.endswith('+00:00') else s ------------- *)
 Lemma starts_with_len p s : starts_with p s = true -> (List.length p <= List.length s)%nat.
 Proof.
   revert s; induction p as [|a p IH]; intros [|b s] H; cbn in *; try lia; try discriminate.
   apply andb_true_iff in H as [_ H]. apply IH in H. lia.
 Qed.
 
-Lemma starts_with_exact p s :
-  starts_with p s = true -> List.length s = List.length p -> s = p.
-Proof.
-  revert s; induction p as [|a p IH]; intros [|b s] H L; cbn in *; try discriminate; try reflexivity.
-  apply andb_true_iff in H as [Hab H]. apply ascii_eqb_eq in Hab. subst.
-  f_equal. apply IH; [assumption|lia].
-Qed.
+Lemma starts_with_app p q : starts_with p (p ++ q) = true.
+Proof. induction p as [|a p IH]; cbn; [reflexivity|]. rewrite ascii_eqb_refl. exact IH. Qed.
 
-Lemma pstr_eqb_starts p s : pstr_eqb s p = true -> starts_with p s = true.
-Proof. intros H; apply pstr_eqb_eq in H; subst. induction p; cbn; [reflexivity|].
-  rewrite ascii_eqb_refl; assumption. Qed.
+Lemma starts_with_split' p s : starts_with p s = true -> exists q, s = p ++ q.
+Proof.
+  revert s; induction p as [|a p IH]; intros s H; [exists s; reflexivity|].
+  destruct s as [|b s]; [discriminate|]. cbn in H. apply andb_true_iff in H as [Hab H].
+  apply ascii_eqb_eq in Hab. subst. destruct (IH s H) as [q ->]. exists q. reflexivity.
+Qed.
 
 Lemma ends_with_off_short s : (List.length s < 6)%nat -> ends_with_off s = false.
 Proof.
@@ -193,29 +191,39 @@ Proof.
   apply pstr_eqb_eq in E. rewrite E in L. cbn in L. lia.
 Qed.
 
-Lemma z_rewrite s : z_safe s = true -> replace_first utc_off z_suffix s = ref_z s.
+Lemma ends_with_off_app p : ends_with_off (p ++ utc_off) = true.
 Proof.
-  unfold ref_z.
-  induction s as [|c r IH]; intros Hs; [reflexivity|].
-  cbn [z_safe] in Hs. cbn [replace_first].
-  destruct (starts_with utc_off (c :: r)) eqn:Esw.
-  - apply Nat.eqb_eq in Hs.
-    assert (Heq : c :: r = utc_off) by (apply starts_with_exact; [assumption|cbn; lia]).
-    rewrite Heq. reflexivity.
-  - specialize (IH Hs).
-    cbn [ends_with_off].
-    assert (Hne : pstr_eqb (c :: r) utc_off = false).
-    { destruct (pstr_eqb (c :: r) utc_off) eqn:E; [|reflexivity].
-      apply pstr_eqb_starts in E. congruence. }
-    rewrite Hne. cbn [orb]. rewrite IH.
-    destruct (ends_with_off r) eqn:Er; [|reflexivity].
-    assert (L : (6 <= List.length r)%nat).
+  induction p as [|c p IH]; [reflexivity|]. cbn [app ends_with_off]. rewrite IH. apply orb_true_r.
+Qed.
+
+Lemma ends_with_off_split s :
+  ends_with_off s = true -> s = firstn (List.length s - 6) s ++ utc_off.
+Proof.
+  induction s as [|c r IH]; [discriminate|].
+  cbn [ends_with_off]. intros H. apply orb_true_iff in H as [H|H].
+  - apply pstr_eqb_eq in H. rewrite H. reflexivity.
+  - assert (L : (6 <= List.length r)%nat).
     { destruct (Nat.lt_ge_cases (List.length r) 6) as [Hlt|]; [|assumption].
-      rewrite ends_with_off_short in Er by assumption. discriminate. }
+      rewrite ends_with_off_short in H by assumption. discriminate. }
     cbn [List.length].
     replace (Datatypes.S (List.length r) - 6)%nat with (Datatypes.S (List.length r - 6)) by lia.
-    reflexivity.
+    cbn [firstn app]. f_equal. apply IH; assumption.
 Qed.
+
+(* the code's endswith (on the reversed texts) is the documented "ends with +00:00" *)
+Lemma py_endswith_off s : py_endswith utc_off s = ends_with_off s.
+Proof.
+  unfold py_endswith. destruct (ends_with_off s) eqn:E.
+  - apply ends_with_off_split in E. rewrite E at 1. rewrite rev_app_distr. apply starts_with_app.
+  - destruct (starts_with (rev utc_off) (rev s)) eqn:F; [|reflexivity].
+    apply starts_with_split' in F as [q Hq].
+    assert (Hs : s = rev q ++ utc_off).
+    { rewrite <- (rev_involutive s), Hq, rev_app_distr, rev_involutive. reflexivity. }
+    rewrite Hs, ends_with_off_app in E. discriminate.
+Qed.
+
+Lemma z_rewrite s : iso_z s = ref_z s.
+Proof. unfold iso_z, ref_z. rewrite py_endswith_off. reflexivity. Qed.
 
 (* ---- C03 main refinement: dispatch machinery = documented encoding -------- *)
 Definition dmx_pair (kv : pv * pv) : pv * pv := (demix (fst kv), demix (snd kv)).
@@ -278,9 +286,9 @@ Proof.
     destruct e as [eid en []]; cbn [e_mix rmap demix]; try reflexivity;
       rewrite (demix_scalar x Hwf); reflexivity.
   - (* VTok *)
-    cbn [wfv] in Hwf. unfold tok_ok in Hwf. rewrite disp_tok. cbn [ref_encode]. unfold ref_tok.
+    rewrite disp_tok. cbn [ref_encode]. unfold ref_tok.
     destruct (tk_kind t), (d_dt cfg); cbn [rmap demix]; try reflexivity;
-      rewrite (z_rewrite _ Hwf); reflexivity.
+      rewrite z_rewrite; reflexivity.
   - (* VNT *)
     cbn [wfv] in Hwf. apply forallb_Forall in Hwf. pose proof (Forall_mp _ _ _ IH Hwf) as Hrel.
     rewrite disp_nt. cbn [ref_encode]. rewrite <- (seqR_map_rel _ _ demix xs Hrel).
@@ -546,29 +554,13 @@ Proof.
 Qed.
 
 (* ---- the Z suffix, stated directly ------------------------------------------- *)
-Lemma ends_with_off_split s :
-  ends_with_off s = true -> s = firstn (List.length s - 6) s ++ utc_off.
-Proof.
-  induction s as [|c r IH]; [discriminate|].
-  cbn [ends_with_off]. intros H. apply orb_true_iff in H as [H|H].
-  - apply pstr_eqb_eq in H. rewrite H. reflexivity.
-  - assert (L : (6 <= List.length r)%nat).
-    { destruct (Nat.lt_ge_cases (List.length r) 6) as [Hlt|]; [|assumption].
-      rewrite ends_with_off_short in H by assumption. discriminate. }
-    cbn [List.length].
-    replace (Datatypes.S (List.length r) - 6)%nat with (Datatypes.S (List.length r - 6)) by lia.
-    cbn [firstn app]. f_equal. apply IH; assumption.
-Qed.
-
 Theorem z_suffix_written s :
-  z_safe s = true -> ends_with_off s = true ->
-  exists p, s = p ++ utc_off /\ replace_first utc_off z_suffix s = p ++ z_suffix.
+  ends_with_off s = true -> exists p, s = p ++ utc_off /\ iso_z s = p ++ z_suffix.
 Proof.
-  intros Hs He. exists (firstn (List.length s - 6) s). split.
+  intros He. exists (firstn (List.length s - 6) s). split.
   - apply ends_with_off_split; assumption.
-  - rewrite (z_rewrite s Hs). unfold ref_z. rewrite He. reflexivity.
+  - rewrite z_rewrite. unfold ref_z. rewrite He. reflexivity.
 Qed.
 
-Theorem z_untouched s :
-  z_safe s = true -> ends_with_off s = false -> replace_first utc_off z_suffix s = s.
-Proof. intros Hs He. rewrite (z_rewrite s Hs). unfold ref_z. rewrite He. reflexivity. Qed.
+Theorem z_untouched s : ends_with_off s = false -> iso_z s = s.
+Proof. intros He. rewrite z_rewrite. unfold ref_z. rewrite He. reflexivity. Qed.
